@@ -721,6 +721,9 @@ def run_property(pid, harnesses, tier, seed, level='other', explanation='', extr
     t0 = time.time()
     known = load_known()
     jobs = jobs or min(16, os.cpu_count() or 1)
+    only = os.environ.get('DFVERIF_ONLY')       # development aid: run a subset of the harnesses, write no evidence
+    if only:
+        harnesses = [h for h in harnesses if only in h.name]
     total = dict(paths=0, nontrivial=0, obligations=0, discharged=0, unknown=0, cex=0, reproduced=0, spurious=0,
                  queries=0, solver_s=0.0, kills=0, left=0, killed_paths=0)
     hreports = []
@@ -830,7 +833,7 @@ def run_property(pid, harnesses, tier, seed, level='other', explanation='', extr
     ev = {'property_id': pid, 'tier': tier, 'seed': int(seed), 'level': level, 'coverage': cov,
           'assumptions': assumptions, 'wall_s': round(wall, 2), 'violations': len(violations)}
     os.makedirs(os.path.join(VERIF, 'evidence'), exist_ok=True)
-    with open(os.path.join(VERIF, 'evidence', pid + '.json'), 'w') as f:
+    with open(os.devnull if only else os.path.join(VERIF, 'evidence', pid + '.json'), 'w') as f:
         json.dump(core._jsonable(ev), f, indent=1, sort_keys=True)
     if violations:
         return EXIT_VIOLATION      # replayed violations are reported even if another harness of the property had an error
